@@ -282,8 +282,12 @@ func KitchenSink(variant int) *Schema {
 		"back":  col(optional(ref("Root", "weak"))),
 		"wmap":  col(mapOf(bt("string"), ref("Item", "weak"))),
 	}}
-	s.Tables["Item"] = &Table{IsRoot: true, Indexes: [][]string{{"iname"}}, Columns: map[string]*Column{
+	s.Tables["Item"] = &Table{IsRoot: true, Indexes: [][]string{{"iname"}, {"sa", "sb"}}, Columns: map[string]*Column{
 		"iname":  col(scalar(bt("string"))),
+		// two string columns under one index, fed from a pool whose values
+		// concatenate ambiguously ("a"+"b" = "ab"+"")
+		"sa": col(scalar(bt("string"))),
+		"sb": col(scalar(bt("string"))),
 		"qty":    col(scalar(bt("integer"))),
 		"need":   col(setOf(ref("Child", "weak"), 1, -1)),
 		"kmap":   col(mapOf(ref("Child", "strong"), bt("string"))),
